@@ -135,14 +135,24 @@ func builtinObjectDefineProperties(call FunctionCall) Value {
 		panic(call.runtime.panicTypeError("Object.DefineProperties is nil"))
 	}
 
-	properties := call.runtime.toObject(call.Argument(1))
-	properties.enumerate(false, func(name string) bool {
-		descriptor := toPropertyDescriptor(call.runtime, properties.get(name))
-		obj.defineOwnProperty(name, descriptor, true)
-		return true
-	})
+	defineProperties(call.runtime, obj, call.runtime.toObject(call.Argument(1)))
 
 	return val
+}
+
+// defineProperties converts every descriptor before defining the first
+// property (15.2.3.7 steps 5-6), so a bad descriptor leaves obj untouched.
+func defineProperties(rt *runtime, obj, properties *object) {
+	var names []string
+	var descriptors []property
+	properties.enumerate(false, func(name string) bool {
+		names = append(names, name)
+		descriptors = append(descriptors, toPropertyDescriptor(rt, properties.get(name)))
+		return true
+	})
+	for i, name := range names {
+		obj.defineOwnProperty(name, descriptors[i], true)
+	}
 }
 
 func builtinObjectCreate(call FunctionCall) Value {
@@ -156,12 +166,7 @@ func builtinObjectCreate(call FunctionCall) Value {
 
 	propertiesValue := call.Argument(1)
 	if propertiesValue.IsDefined() {
-		properties := call.runtime.toObject(propertiesValue)
-		properties.enumerate(false, func(name string) bool {
-			descriptor := toPropertyDescriptor(call.runtime, properties.get(name))
-			obj.defineOwnProperty(name, descriptor, true)
-			return true
-		})
+		defineProperties(call.runtime, obj, call.runtime.toObject(propertiesValue))
 	}
 
 	return objectValue(obj)
